@@ -5,7 +5,8 @@ from .index import norm, walk_no_nested
 
 
 def _names(e):
-    return {n.id for n in ast.walk(e) if isinstance(n, ast.Name)}
+    funcs = {id(n.func) for n in ast.walk(e) if isinstance(n, ast.Call)}
+    return {n.id for n in ast.walk(e) if isinstance(n, ast.Name) and id(n) not in funcs}
 
 
 def keyed_memo_stores(fnode, params, resolve):
@@ -67,3 +68,144 @@ def selftest():
     g = meths["get"]
     res = keyed_memo_stores(g, [a.arg for a in g.args.args], lambda c: meths.get(c.func.attr) if isinstance(c.func, ast.Attribute) else None)
     return len(res) == 1 and res[0][4] == ["flavour"]
+
+
+def key_disagreements(fnode):
+    """Memo tables inside one function whose reader key and writer key differ: the function tests `K in T` (or reads T[K] / T.get(K)) and stores `T[K2] = v` with K2 != K where
+    both keys are expressions over the same single variable (e.g. `index` vs `abs(index)`).  Yields (store_node, table, read_key, write_key)."""
+    reads, writes = {}, {}
+    for n in walk_no_nested(fnode):
+        if isinstance(n, ast.Compare) and len(n.ops) == 1 and isinstance(n.ops[0], (ast.In, ast.NotIn)) and isinstance(n.comparators[0], ast.Name):
+            reads.setdefault(n.comparators[0].id, set()).add(norm(n.left))
+        if isinstance(n, ast.Subscript) and isinstance(n.value, ast.Name) and isinstance(n.ctx, ast.Load) and not isinstance(n.slice, ast.Slice):
+            reads.setdefault(n.value.id, set()).add(norm(n.slice))
+        if isinstance(n, ast.Call) and isinstance(n.func, ast.Attribute) and n.func.attr == "get" and isinstance(n.func.value, ast.Name) and n.args:
+            reads.setdefault(n.func.value.id, set()).add(norm(n.args[0]))
+        if isinstance(n, ast.Assign):
+            for t in n.targets:
+                if isinstance(t, ast.Subscript) and isinstance(t.value, ast.Name) and not isinstance(t.slice, ast.Slice):
+                    writes.setdefault(t.value.id, []).append((n, t.slice))
+    out = []
+    for tab, ws in writes.items():
+        rk = reads.get(tab, set())
+        if not rk:
+            continue
+        if any(norm(wk_) in rk for _, wk_ in ws):
+            continue  # some store uses a key form that is also read (e.g. signed-literal tables written under i and -i)
+        for st, wk in ws:
+            wsrc = norm(wk)
+            if wsrc in rk:
+                continue
+            wvars = _names(wk)
+            for r in sorted(rk):
+                try:
+                    rvars = _names(ast.parse(r, mode="eval").body)
+                except SyntaxError:
+                    continue
+                if len(wvars) == 1 and wvars == rvars and wsrc != r:
+                    out.append((st, tab, r, wsrc))
+    return out
+
+
+KEY_SELFTEST = '''
+def copy(index, translate):
+    if index in translate:
+        return translate[index]
+    at = build(index)
+    translate[abs(index)] = at
+    return at
+'''
+
+
+def key_selftest():
+    f = ast.parse(KEY_SELFTEST).body[0]
+    r = key_disagreements(f)
+    return len(r) == 1 and r[0][1:] == ("translate", "index", "abs(index)")
+
+
+def attr_writes(fnode):
+    """self attributes written (assigned, subscript-assigned, mutated through a container method) by a method: {attr: [nodes]}"""
+    def is_self_attr(n):
+        return isinstance(n, ast.Attribute) and isinstance(n.value, ast.Name) and n.value.id == "self"
+    out = {}
+    for n in walk_no_nested(fnode):
+        if isinstance(n, (ast.Assign, ast.AugAssign, ast.Delete)):
+            stack = list(n.targets) if isinstance(n, (ast.Assign, ast.Delete)) else [n.target]
+            while stack:
+                t = stack.pop()
+                if isinstance(t, (ast.Tuple, ast.List)):
+                    stack.extend(t.elts)
+                    continue
+                base = t
+                while isinstance(base, ast.Subscript):
+                    base = base.value
+                if is_self_attr(base):
+                    out.setdefault(base.attr, []).append(n)
+        if isinstance(n, ast.Call) and isinstance(n.func, ast.Attribute) and n.func.attr in ("append", "add", "extend", "update", "pop", "remove", "clear", "insert", "setdefault"):
+            base = n.func.value
+            while isinstance(base, ast.Subscript):
+                base = base.value
+            if is_self_attr(base):
+                out.setdefault(base.attr, []).append(n)
+    return out
+
+
+def reader_memo_obligations(methods, readers, parents):
+    """Memo invalidation: an attribute that a READER method of a class assigns (a memo of what it computed) holds a value derived from other attributes of the object; every
+    other method that writes one of those attributes must also write (reset) the memo.  methods: {name: FunctionInfo}; parents: node -> parent map of the module.
+    Yields (memo_attr, reader, writer_name, writer, hit_attrs, resets, deps, witness_node)."""
+    def is_self_attr(n):
+        return isinstance(n, ast.Attribute) and isinstance(n.value, ast.Name) and n.value.id == "self"
+    for rn in readers:
+        f = methods.get(rn)
+        if f is None:
+            continue
+        for attr, nodes in attr_writes(f.node).items():
+            local = {}
+            for st in walk_no_nested(f.node):
+                if isinstance(st, ast.Assign):
+                    for t_ in st.targets:
+                        if isinstance(t_, ast.Name):
+                            local.setdefault(t_.id, []).append(st.value)
+                        elif isinstance(t_, ast.Tuple):
+                            for e_ in t_.elts:
+                                if isinstance(e_, ast.Name):
+                                    local.setdefault(e_.id, []).append(st.value)
+                if isinstance(st, ast.AugAssign) and isinstance(st.target, ast.Name):
+                    local.setdefault(st.target.id, []).append(st.value)
+            exprs = []
+            for nd in nodes:
+                if isinstance(nd, ast.Assign):
+                    exprs.append(nd.value)
+                elif isinstance(nd, ast.Call):
+                    exprs.extend(nd.args)
+                cur = parents.get(nd)
+                while cur is not None and cur is not f.node:
+                    if isinstance(cur, (ast.If, ast.While)):
+                        exprs.append(cur.test)
+                    cur = parents.get(cur)
+            if all(isinstance(e_, ast.Constant) for e_ in exprs if e_ is not None) and exprs:
+                continue  # a flag set to a constant is not a memo of computed state
+            deps, seen_names, frontier = set(), set(), [e_ for e_ in exprs if e_ is not None]
+            while frontier:
+                e_ = frontier.pop()
+                for x in ast.walk(e_):
+                    if is_self_attr(x) and x.attr != attr:
+                        deps.add(x.attr)
+                        if x.attr in methods and x.attr not in seen_names:
+                            seen_names.add(x.attr)
+                            for y in ast.walk(methods[x.attr].node):
+                                if is_self_attr(y) and isinstance(y.ctx, ast.Load) and y.attr != attr and y.attr not in methods:
+                                    deps.add(y.attr)
+                    elif isinstance(x, ast.Name) and x.id in local and x.id not in seen_names:
+                        seen_names.add(x.id)
+                        frontier.extend(local[x.id])
+            deps = sorted(a for a in deps if a not in methods)
+            for wname, w in sorted(methods.items()):
+                if w is f or wname == "__init__":
+                    continue
+                ww = attr_writes(w.node)
+                hit = [a for a in deps if a in ww]
+                if not hit:
+                    continue
+                yield attr, f, wname, w, hit, attr in ww, deps, ww[hit[0]][0]
